@@ -1064,3 +1064,5 @@ V("is_tangent through np.linalg.solve with the hyperplane coordinates as they ar
   "        h = plane.array\n        pole = np.linalg.solve(self.array, h)\n        return np.isclose(np.sum(h * pole, axis=-1), 0, atol=EQ_TOL_ABS)", "E6.K9", "QuadricTensor.is_tangent")
 V("twin: is_tangent through np.linalg.solve with a trailing axis on the right-hand side", "C04", CURVE, "        return self.dual.contains(plane)",
   "        h = plane.array[..., None]\n        pole = np.linalg.solve(self.array, h)\n        return np.isclose(np.sum(h * pole, axis=(-2, -1)), 0, atol=EQ_TOL_ABS)", "silent")
+V("twin: np.vdot of two coordinate vectors in a function that takes single objects only", "C04", TRANS, "    x = Point(*x)\n\n    return translation(x) * p * translation(-x)",
+  "    x = Point(*x)\n    _offset = 2 * np.vdot(axis.array[:-1], x.array[:-1])  # (a scalar of two vectors: nothing to flatten)\n\n    return translation(x) * p * translation(-x)", "silent")
